@@ -209,6 +209,7 @@ struct End {
     std::vector<Got> got;
     bool err{false};
     std::vector<size_t> bounds; // interesting offsets in wire (element starts)
+    size_t app_end{0};          // manual: offset just after the last application packet (only decoys follow); 0 = not applicable
 };
 
 std::unique_ptr<V2Transport> MakeV2(const End& e)
@@ -522,6 +523,7 @@ VH_CMD(transport)
                     M.pk.push_back(vh::J().b("ig", false).str("k", "app").str("t", m.type).i("sid", sid).u("n", m.n).hex("pat", m.pat).done());
                     M.manual_app.push_back(std::move(m));
                 }
+                M.app_end = M.wire.size();
                 decoys(2);
                 M.bounds.push_back(M.wire.size());
                 feed_all();
@@ -618,7 +620,9 @@ VH_CMD(transport)
                     bool prefix = got.size() <= genuine.size();
                     for (size_t g = 0; prefix && g < got.size(); ++g) prefix = SameMsg(got[g], genuine[g]);
                     // detected = an error was reported, or the receiver is still waiting (not everything was delivered)
-                    const bool strict = got.size() < genuine.size() || !ok;
+                    // a flip in the trailing decoy packets (after the last application packet) cannot affect the messages before it:
+                    // complete delivery is then legitimate (the receiver errors or stalls on the damaged decoy afterwards)
+                    const bool strict = got.size() < genuine.size() || !ok || (tx.app_end != 0 && pos >= tx.app_end);
                     if (!prefix) violation("tampered-stream-delivered-different-message", "a v2 stream with one flipped bit made the receiver deliver a message that was not sent", vh::J().str("kind", kind).u("pos", pos).i("bit", bit).u("delivered", got.size()));
                     else if (!strict) violation("tampered-stream-fully-delivered", "a v2 stream with one flipped bit was delivered completely without an error", vh::J().str("kind", kind).u("pos", pos).i("bit", bit).u("delivered", got.size()).b("error_reported", !ok));
                     trials.push_back("[" + std::to_string(pos) + "," + std::to_string(bit) + "," + std::to_string(cls) + "," + (ok ? "0" : "1") + "," + std::to_string(got.size()) + "," + (prefix ? "1" : "0") + ",-1]");
@@ -627,7 +631,7 @@ VH_CMD(transport)
                     else vh::log().obs("tamper_stalled_without_delivery");
                 }
                 if (all) vh::log().obs("tamper_exhaustive_streams");
-                tamper_json.push_back(vh::J().i("dir", r).str("impl", "v2").u("total", genuine.size()).u("len", tx.wire.size()).raw("trials", vh::JArr(trials)).done());
+                tamper_json.push_back(vh::J().i("dir", r).str("impl", "v2").u("total", genuine.size()).u("len", tx.wire.size()).u("app_end", tx.app_end).raw("trials", vh::JArr(trials)).done());
             } else if (v1stream && (rx.impl == "v1" || rx.fallback)) {
                 // message offsets
                 std::vector<size_t> off;
